@@ -123,6 +123,67 @@ def _explore(out, tier, seed, facts, replay):
             out.violation("legend-with-climatology-exception", "Data(..., clim=, legend=) raised %r" % (e,), {"dataset": ds})
         if len(samples) < 2:
             samples.append({"n_inputs": ninp, "divide": bool(divide)})
+    # names and legend: the climatology is never one of the entries, also when it shares its file name with a verified input
+    import verif.data
+    for names_ in (["old/fc.txt", "model.txt"], ["model.txt", "old/fc.txt"], ["clim.txt", "model.txt"], ["a.txt", "b.txt", "a.txt"]):
+        for cname_ in ("ref/fc.txt", "clim.txt", "a.txt"):
+            spec_ = {"times": [0, 86400], "leads": [0.0], "locs": [[1, 0.0, 0.0, 0.0]], "fields": {"obs": [[[1.0]], [[2.0]]], "fcst": [[[1.5]], [[2.5]]]}}
+            ins_ = [datagen.mem_input(spec_, n_) for n_ in names_]
+            nf += 1
+            try:
+                dn = verif.data.Data(ins_, clim=datagen.mem_input(spec_, cname_))
+                want_ = [n_.split("/")[-1] for n_ in names_]
+                got_ = {"get_names": list(dn.get_names()), "get_legend": list(dn.get_legend())}
+                for fn_ in ("get_short_names", "get_full_names"):
+                    if hasattr(dn, fn_):
+                        got_[fn_] = list(getattr(dn, fn_)())
+                if got_["get_names"] != want_ or got_["get_legend"] != want_ or any(len(v_) != len(names_) for v_ in got_.values()) or \
+                        got_.get("get_full_names", names_) != names_:
+                    out.violation("names-with-climatology", "verified files %r with climatology file %r: %r; expected one entry per verified file in command-line order (%r)"
+                                  % (names_, cname_, got_, want_), {"inputs": names_, "climatology": cname_})
+            except datagen.ImplExit:
+                pass
+            except Exception as e:
+                out.violation("names-with-climatology-exception", "Data(%r, clim=%r) raised %r" % (names_, cname_, e), {"inputs": names_, "climatology": cname_})
+    # -c / -C from the command line: -c subtracts, -C divides, whichever climatology option comes LAST decides file and operation
+    import os
+    import shutil
+    import tempfile
+    from p_c13 import run_cli
+    tmpc = tempfile.mkdtemp(prefix="vfc14_")
+    try:
+        def wfile(name, vals):
+            pth = os.path.join(tmpc, name)
+            with open(pth, "w") as f_:
+                f_.write("unixtime leadtime location obs fcst\n")
+                for l_, (o_, c_) in zip((0, 6, 12), vals):
+                    f_.write("1325376000 %d 1 %g %g\n" % (l_, o_, c_))
+            return pth
+        A_ = [(rng.randint(2, 20) / 2.0, rng.randint(2, 20) / 2.0) for _ in range(3)]
+        X_ = [(0.0, rng.choice([0.5, 2.0, 4.0])) for _ in range(3)]
+        Y_ = [(0.0, rng.choice([1.0, 1.5, 3.0])) for _ in range(3)]
+        fa, fx, fy = wfile("A.txt", A_), wfile("X.txt", X_), wfile("Y.txt", Y_)
+        cfgf = os.path.join(tmpc, "cfg.txt")
+        open(cfgf, "w").write("-c %s\n" % fy)
+        for opts_, (cl_, div_) in ((["-c", fy], (Y_, False)), (["-C", fx], (X_, True)), (["-C", fx, "-c", fy], (Y_, False)), (["-c", fy, "-C", fx], (X_, True)),
+                                   (["-C", fx, "--config", cfgf], (Y_, False)), (["-c", fx, "-c", fy], (Y_, False))):
+            for mname_, idx_ in (("obs", 0), ("fcst", 1)):
+                fo_ = os.path.join(tmpc, "o.csv")
+                if os.path.exists(fo_):
+                    os.remove(fo_)
+                argv_ = ["verif", fa] + opts_ + ["-m", mname_, "-x", "leadtime", "-type", "csv", "-f", fo_]
+                r_ = run_cli(argv_)
+                nf += 1
+                want_ = [(v_[idx_] / c_[1]) if div_ else (v_[idx_] - c_[1]) for v_, c_ in zip(A_, cl_)]
+                got_ = None
+                if r_[0] == "ok" and os.path.exists(fo_):
+                    got_ = [float(ln.split(",")[1]) for ln in open(fo_).read().strip().split("\n")[1:]]
+                if got_ is None or len(got_) != 3 or any(abs(g_ - w_) > 1e-5 * max(1, abs(w_)) for g_, w_ in zip(got_, want_)):
+                    out.violation("cli-climatology:%s" % " ".join(o_ for o_ in opts_ if o_.startswith("-")), "verif A.txt %s -m %s: got %r (%s); %s of A (%r) and the climatology forecast (%r) gives %r"
+                                  % (" ".join(os.path.basename(o_) for o_ in opts_), mname_, got_, r_[0], "quotient" if div_ else "difference", [v_[idx_] for v_ in A_], [c_[1] for c_ in cl_], want_),
+                                  {"argv": [os.path.basename(a_) for a_ in argv_], "A(obs,fcst)": A_, "X(obs,fcst)": X_, "Y(obs,fcst)": Y_, "config_file": "-c Y.txt"})
+    finally:
+        shutil.rmtree(tmpc, ignore_errors=True)
     stats.update({
         "evaluations": stats["datasets"] + stats["requests"] + nf,
         "distinct_nontrivial": max(len(distinct), 2),
